@@ -167,7 +167,7 @@ def gen_stop(rnd, depth):
         if k == "attempt":
             return {"k": k, "n": rnd.choice([0, 1, 2, 3, 5, 10, 1000])}
         if k in ("delay", "before"):
-            return {"k": k, "d": rnd.choice([0, 0.5, 1, 2.5, 10, 3600])}
+            return {"k": k, "d": rnd.choice([0, 0.5, 1, 2.5, 10, 3600]), "td": rnd.random() < 0.25}
         return {"k": k}
     k = rnd.choice(["any", "all", "or", "and"])
     n = 2 if k in ("or", "and") else rnd.randint(0, 3)
@@ -179,9 +179,9 @@ def build_stop(ast, rp):
     if k == "attempt":
         return rp.stop_after_attempt(ast["n"])
     if k == "delay":
-        return rp.stop_after_delay(ast["d"])
+        return rp.stop_after_delay(_dur(ast, ast["d"]))
     if k == "before":
-        return rp.stop_before_delay(ast["d"])
+        return rp.stop_before_delay(_dur(ast, ast["d"]))
     if k == "never":
         return rp.stop_never()
     parts = [build_stop(p, rp) for p in ast["parts"]]
@@ -213,6 +213,13 @@ BASES = [0, 0.5, 1, 1.5, 2, 3, 10, 1e6]
 
 
 def gen_wait_leaf(rnd):
+    leaf = _gen_wait_leaf(rnd)
+    if rnd.random() < 0.25:
+        leaf["td"] = True   # durations spelled as datetime.timedelta
+    return leaf
+
+
+def _gen_wait_leaf(rnd):
     k = rnd.choice(["fixed", "none", "exp", "inc", "rand", "expjit", "randexp", "fulljit"])
     if k == "fixed":
         return {"k": k, "w": rnd.choice(NUMS)}
@@ -239,22 +246,32 @@ def gen_wait(rnd, depth):
     return {"k": k, "parts": [gen_wait(rnd, depth - 1) for _ in range(n)]}
 
 
+def _dur(ast, v):
+    """a duration parameter in the spelling the AST asks for: plain number, or datetime.timedelta (`td`), both documented"""
+    if ast.get("td") and isinstance(v, (int, float)) and not isinstance(v, bool) and math.isfinite(v) and 0 <= v < 10 ** 8 \
+            and abs(v * 1e6 - round(v * 1e6)) < 1e-6:   # exactly representable in timedelta's microseconds
+        import datetime
+
+        return datetime.timedelta(seconds=v)
+    return v
+
+
 def build_wait(ast, rp):
     k = ast["k"]
     if k == "fixed":
-        return rp.wait_fixed(ast["w"])
+        return rp.wait_fixed(_dur(ast, ast["w"]))
     if k == "none":
         return rp.wait_none()
     if k == "exp":
-        return rp.wait_exponential(multiplier=ast["mult"], exp_base=ast["base"], max=ast["max"], min=ast["min"])
+        return rp.wait_exponential(multiplier=ast["mult"], exp_base=ast["base"], max=_dur(ast, ast["max"]), min=_dur(ast, ast["min"]))
     if k == "randexp":
-        return rp.wait_random_exponential(multiplier=ast["mult"], exp_base=ast["base"], max=ast["max"], min=ast["min"])
+        return rp.wait_random_exponential(multiplier=ast["mult"], exp_base=ast["base"], max=_dur(ast, ast["max"]), min=_dur(ast, ast["min"]))
     if k == "fulljit":
-        return rp.wait_full_jitter(multiplier=ast["mult"], exp_base=ast["base"], max=ast["max"], min=ast["min"])
+        return rp.wait_full_jitter(multiplier=ast["mult"], exp_base=ast["base"], max=_dur(ast, ast["max"]), min=_dur(ast, ast["min"]))
     if k == "inc":
-        return rp.wait_incrementing(start=ast["start"], increment=ast["inc"], max=ast["max"])
+        return rp.wait_incrementing(start=_dur(ast, ast["start"]), increment=_dur(ast, ast["inc"]), max=_dur(ast, ast["max"]))
     if k == "rand":
-        return rp.wait_random(min=ast["min"], max=ast["max"])
+        return rp.wait_random(min=_dur(ast, ast["min"]), max=_dur(ast, ast["max"]))
     if k == "expjit":
         return rp.wait_exponential_jitter(initial=ast["initial"], exp_base=ast["base"], max=ast["max"], jitter=ast["jitter"])
     parts = [build_wait(p, rp) for p in ast["parts"]]
